@@ -46,6 +46,10 @@ def all_codes(co, acc):
     return acc
 
 
+class _S(str):
+    pass
+
+
 def op_codeconv(c):
     """c = {stdlib: [...], max_codes}: -> list of per-code-object records"""
     import oracle_compile as OC
@@ -74,7 +78,9 @@ def op_codeconv(c):
     for co in fn_codes:
         for label, kw in (("nlocals+2", {"co_nlocals": co.co_nlocals + 2}), ("stacksize+7", {"co_stacksize": co.co_stacksize + 7}),
                           ("flag-annotations", {"co_flags": co.co_flags | 0x1000000}), ("firstlineno-0", {"co_firstlineno": 0}),
-                          ("firstlineno-70000", {"co_firstlineno": 70000}), ("name-non-ascii", {"co_name": "n\u00e9_\u4e2d"}), ("filename-empty", {"co_filename": ""})):
+                          ("firstlineno-70000", {"co_firstlineno": 70000}), ("name-non-ascii", {"co_name": "n\u00e9_\u4e2d"}), ("filename-empty", {"co_filename": ""}),
+                          # values the host accepts although no compiler makes them: a str subclass as name (bytecode tools make these)
+                          ("name-str-subclass", {"co_name": _S("sub")})):
             try:
                 variants.append(("variant:" + label, co.replace(**kw)))
             except Exception:
